@@ -36,16 +36,30 @@ def expression_set(tier):
     twins += [("exists", "tags", "x"), ("exists", "fields", "x"), ("exists", "tags", "k"), ("exists", "fields", "k"),
               ("cmp", "tags", ("x",), "==", None), ("cmp", "fields", ("x",), "==", None), ("cmp", "tags", ("k",), "!=", None), ("cmp", "fields", ("k",), "!=", None),
               ("noop", "tags", ("k",)), ("noop", "fields", ("k",))]
+    # a bool comparison value next to the equal int / float (True == 1 == 1.0 and they hash alike)
+    for op in ("==", "!=", ">="):
+        twins += [("cmp", "fields", ("x",), op, True), ("cmp", "fields", ("x",), op, 1), ("cmp", "fields", ("x",), op, 1.0), ("cmp", "fields", ("x",), op, False), ("cmp", "fields", ("x",), op, 0)]
     # a compiled pattern with its own flags next to the same pattern text without them
     import re as _re
 
     twins += [("regex", "tags", ("k",), "matches", ("RE", "^b$", _re.I), 0), ("regex", "tags", ("k",), "matches", "^b$", 0),
               ("regex", "tags", ("k",), "matches", ("RE", "^b$", 0), 0), ("regex", "tags", ("k",), "matches", "^b$", _re.I)]
-    A = A + [t for t in twins if t not in A]
+    # (membership by repr: as tuples, an atom on 1 and the same atom on 1.0 or True are "equal" and would be merged)
+    have = {repr(t) for t in A}
+    A = A + [t for t in twins if repr(t) not in have]
     E = list(A) + [("not", a) for a in A]
     sub = quick_atoms(A)[: (18 if tier == "quick" else 34)]
     lits = sub if tier == "quick" else sub + [("not", a) for a in sub[:12]]
-    lits = lits + naive[:3] + twins[:7] + twins[-27:-24] + twins[-18:-16] + twins[-14:-10] + twins[-4:]
+    pick = [t for t in twins if (t[0] == "cmp" and t[3] in ("==", ">=") and t[1] == "fields" and repr(t[4]) in ("2", "2.0", "-1", "-2", "True", "1", "1.0", "None"))
+            or t[0] in ("test", "exists", "regex") or (t[0] == "cmp" and t[1] == "time" and t[3] == ">=")]
+    # a bounded selection for the quadratic pair construction (all twins take part as bare atoms and negations anyway)
+    seen_kind, small = {}, []
+    for t in pick:
+        kind = (t[0], t[1], t[3] if t[0] == "cmp" else None)
+        seen_kind[kind] = seen_kind.get(kind, 0) + 1
+        if seen_kind[kind] <= (4 if t[0] == "cmp" and t[1] == "fields" else 2):
+            small.append(t)
+    lits = lits + naive[:3] + (small if tier == "quick" else pick)
     for a in lits:
         for b in lits:
             E.append(("and", a, b))
@@ -79,8 +93,8 @@ def expression_set(tier):
     # de-duplicate ASTs but keep order
     seen, out = set(), []
     for e in E:
-        if e not in seen:
-            seen.add(e)
+        if repr(e) not in seen:
+            seen.add(repr(e))
             out.append(e)
     return out
 
